@@ -16,7 +16,7 @@ RULE = ("K-inject: every (axis, direction) of UniformPlaneSource (thorough: also
         "eps_r/mu_r placed as a UniformMaterialObject, fixed E (or H) polarisation at a random transverse angle, CW or "
         "pulse profile, uniform or non-uniform grid, static_amplitude_factor, plane index from the seed; material arrays "
         "seen by the update overwritten with isotropic / diagonal / full 9-component random arrays; 2 (thorough 3) time steps each, "
-        "OnOffSwitch default / delayed start / interval 2 (adjusted time step incl. the +0.5 of the H update, on-steps, no "
+        "OnOffSwitch default / delayed start / interval 2 (adjusted time step incl. the +0.5 of the H update, on-steps; thorough: no "
         "injection while off); forward update_E/update_H and (at the first probed step; thorough: every step) "
         "update_E_reverse/update_H_reverse; all cells of the plane compared (1e-9) with the Lean model (`inject`/`injectfull`), "
         "whose inputs (incident E/H per cell, Yee time offsets) are rebuilt in numpy independently of the source object "
@@ -272,7 +272,7 @@ def k_inject(ctx, c, sample=False):
         ctx.expect_equal("source on-steps", c, [bool(x) for x in np.asarray(src._is_on_at_time_step_arr)][:T],
                          [bool(on_index(c, u)[0]) for u in range(T)])
         off_steps = [u for u in range(min(T, 12)) if not on_index(c, u)[0]]
-        if off_steps:
+        if off_steps and ctx.thorough:
             u = jnp.asarray(off_steps[-1], dtype=jnp.int32)
             if np.any(np.asarray(update_E(u, arrays, sc.objects, cfg, True).fields.E) != 0) or \
                     np.any(np.asarray(update_H(u, arrays, sc.objects, cfg, True).fields.H) != 0):
@@ -535,7 +535,7 @@ def run(ctx):
         oracle_case(ctx, gen_oracle(rng, a1, d1, "cw", medium=rng.choice(MEDIA[:2])))
         oracle_case(ctx, gen_oracle(rng, a2, d2, "pulse", medium=rng.choice(MEDIA[2:])))      # magnetic background
         a3, d3 = order[2]
-        oracle_case(ctx, gen_oracle(rng, a3, d3, rng.choice(["cw", "pulse"]), medium=MEDIA[0], delayed=True))   # switched source
+        oracle_case(ctx, gen_oracle(rng, a3, d3, "cw", medium=MEDIA[0], delayed=True))   # switched source
 
 
 def search(ctx, hints):
